@@ -93,7 +93,7 @@ let () =
               if dropped_s <> "dropped_count 1" then report_spec ~prop:"C17" ~pred:"zst_dropped_once" ~detail:dropped_s)
          | 'X' ->
            let what = String.map (fun c -> if c = ' ' then '_' else c) (String.trim (String.sub line 1 (String.length line - 1))) in
-           if String.length what >= 9 && String.sub what 0 9 = "zst_slice" then report_spec ~prop:"C15" ~pred:"box_slice_values_dropped_once" ~detail:what;
+           if String.length what >= 9 && (String.sub what 0 9 = "zst_slice" || String.sub what 0 9 = "zst_array") then report_spec ~prop:"C15" ~pred:"box_slice_values_dropped_once" ~detail:what;
            report_spec ~prop:"C17" ~pred:"like_std_box" ~detail:what
          | 'E' ->
            incr histories;
